@@ -526,3 +526,25 @@ Theorem offpath_response_not_limited :
   option_map snd (step s1 (Transmit 1200 1 [100])) = Some [(9, MIN_INITIAL_SIZE)] /\
   3 * d_size offpath_witness < MIN_INITIAL_SIZE.
 Proof. vm_compute. repeat split; reflexivity. Qed.
+
+(** * the coalesced-datagram credit (defect found by the trace ledger, repaired in the code) *)
+Lemma coalesced_fixed_inv s from n : Inv s -> Inv (coalesced_fixed s from n).
+Proof. intro H. unfold coalesced_fixed. destruct (from =? remote (cur s)); [apply credit_inv|]; exact H. Qed.
+
+Lemma coalesced_fixed_hist mtu s from n : 0 <= n -> Hist mtu s -> Hist mtu (coalesced_fixed s from n).
+Proof. intros Hn H. unfold coalesced_fixed. destruct (from =? remote (cur s)); [apply credit_hist; assumption|exact H]. Qed.
+
+(** the unrepaired credit refutes the bound: address 66 sent 1200 bytes; two datagrams from
+    elsewhere with 1149 coalesced bytes each raise its budget; 6000 bytes go to 66, which is not
+    below 3 x 1200 + 1200 *)
+Definition coalesced_witness : dgram := mkd 1000 66 1200 true false 7 [FOther] 333 444 400 300.
+Theorem coalesced_credit_refuted :
+  let s1 := handle_datagram (init true true 0) coalesced_witness in
+  let s2 := coalesced_unfixed (coalesced_unfixed s1 1149) 1149 in
+  match steps s2 [Transmit 1200 1 [1200]; Transmit 1200 10 [1200; 1200; 1200; 1200; 1200]] with
+  | Some s3 => remote (cur s3) = 66 /\ validated (cur s3) = false /\
+               AA.gr (aa (cur s3)) = 1200 /\ AA.gs (aa (cur s3)) = 6000 /\
+               3 * AA.gr (aa (cur s3)) + 1200 <= AA.gs (aa (cur s3))
+  | None => False
+  end.
+Proof. vm_compute. repeat split; try reflexivity; intro H; discriminate H. Qed.
